@@ -96,7 +96,7 @@ def setup(ctx):
     return {'ffis': [ffi1, ffi2], 'libs': [lib1, lib2]}
 
 
-OPS = ['create'] * 6 + ['drop'] * 6 + ['collect'] * 2 + ['call'] * 3 + ['selfdrop'] + ['pagefill']
+OPS = ['create'] * 6 + ['drop'] * 6 + ['collect'] * 2 + ['call'] * 3 + ['selfdrop'] + ['pagefill'] + ['fork']
 
 
 def strategy(ctx):
@@ -338,6 +338,43 @@ class History(object):
             self.call(r, 1, a)
         self.flags.add('drop-while-every-closure-block-is-in-use')
         return 'pagefill-drop-call'
+
+    def op_fork(self, sig, a, b):
+        """fork() without exec: the child drops the callbacks it inherited, creates and calls new ones and
+        exits; the parent's callbacks must be untouched by whatever the child did with its copy"""
+        if len(self.live) > 3000:
+            return None
+        import os, sys
+        sys.stdout.flush()
+        sys.stderr.flush()
+        pid = os.fork()
+        if pid == 0:
+            rc = 0
+            try:
+                keep = self.live[a % 2::2]                     # drop every other inherited callback ...
+                for r in self.live:
+                    if r not in keep:
+                        del self.addrs[r.addr]
+                self.live = keep
+                gc.collect()
+                for _ in range(3):                             # ... and create / call / drop new ones
+                    self.op_create(sig, 5 + b % 6, 0)
+                    for r in self.live[-8:]:
+                        self.call(r, 2, b)
+                    self.op_drop(2, a, b)
+            except BaseException:
+                rc = 3
+            os._exit(rc)
+        _, status = os.waitpid(pid, 0)
+        if status != 0:
+            self.ctx.fail('after fork(), the child process failed while using its own callbacks (wait status %d)'
+                          % status, step=self.step, live=len(self.live))
+        n = len(self.live)
+        for j in sorted(set([0, n // 2, n - 1] + [(a * 16 + b + 7 * q) % n for q in range(12)])) if n else []:
+            self.call(self.live[j], 2, b)
+            self.call(self.live[j], 1, a)
+        self.flags.add('fork')
+        return 'fork-child-churns-parent-calls'
 
     def op_selfdrop(self, i, _how, k):
         """a one-shot callback: invoked through its bare address (so that the call itself holds no
